@@ -17,6 +17,11 @@ before and after the session.  Secondary clause (DESIGN: "the server logged no u
 deliberately narrowed to the path-safety exception: an ``InsecurePath`` reaching the server log
 means ``toSegments`` passed an escaping path and only ``FilePath.child`` stopped it.
 
+Containment: see c54_server.py (uid drop to 65534 + guarding audit hook) and ASSUMPTIONS.
+Development self-test of the containment (not a registered check): C54_SELFTEST_UNCONFINED=1 makes
+the server use a harness-defined unconfined shell; the run must print VIOLATION and leave
+everything outside the scratch top untouched.
+
 Guards against false alarms: os.stat/isdir/exists are not audit events and are not demanded;
 other logged failures (ENAMETOOLONG from very long names, ``NOOP x`` TypeError, transfer aborts)
 are only counted — they say nothing about confinement; events outside ``top`` that are not attack
@@ -45,23 +50,27 @@ RULE = ("one case = one FTP session of ~30 commands generated from (seed, index)
         "directories sharing the root's name prefix (root-secret, rootX, pub-private), to decoys "
         "and to the process cwd, '..' runs longer than the depth, real absolute paths, '.'/empty "
         "segments, NUL, backslashes, %-encoded and decorated dots, globs, '~', 255..5000 character "
-        "names, 200-deep paths, and benign names so that state (cwd, created files) evolves.  "
-        "Reactor = (index // nshards) mod 4.  Distinct = the exact command list; non-trivial = at "
+        "names, 40..200-deep paths, and benign names so that state (cwd, created files) evolves.  "
+        "Reactor = index mod 4 (one server subprocess per reactor and shard).  Distinct = the exact command list; non-trivial = at "
         "least one escape attempt (argument lexically resolving outside the root) and at least "
         "one audited filesystem event inside the root in the same session.")
 ASSUMPTIONS = [
     "trusted base: CPython audit events (PEP 578) report every open/listdir/scandir/mkdir/rmdir/remove/rename/chmod/truncate made from Python code; C-level access (pwd/grp lookups) and os.stat are invisible",
     "paths are resolved lexically (os.path.abspath); the scratch tree contains no symbolic links ('symbolic links aside' in the statement)",
     "POSIX only; the client is well behaved at the socket level (always connects the PASV port) — hostility is in the command arguments and ordering",
-    "destructive commands never carry more than 13 '..' segments nor system absolute paths, so even a broken server stays inside the scratch area",
+    "containment (the check is run as root against deliberately broken trees): the server subprocess drops to uid/gid 65534 before serving "
+    "(refuses to serve otherwise -> inconclusive), its audit hook raises PermissionError before any mutating operation, chdir or process "
+    "creation that leaves the scratch top (such refused operations are violation witnesses), and independently of both the generator keeps "
+    "the '..' segments of all CWD/CDUP plus any destructive argument within the 13 levels up to the scratch top and never aims "
+    "destructive commands or CWD at system paths.  Not guarded: os.open(..., dir_fd=) relative opens (no dir_fd in the audit event)",
+    "a read of a path outside the scratch area is attributed to the interpreter (imports, linecache) only if it ends in .py/.pyc/.pyi/.so/.pth",
 ]
 SHARDS = {"quick": 4, "thorough": 16}
 WATCHDOG_S = {"quick": 600, "thorough": 3000}
-FLOORS = {"sessions": 20, "opens_inside_root": 40, "listings_inside_root": 100,
-          "mutations_inside_root": 20, "escape_attempt_commands": 200, "fs_events_inside_root": 300}
-READY = False  # NOT validated: see the UNSAFE note in gen_session — a cwd carried outside the root by a
-# broken server (mutant) lets later destructive commands reach real system paths.  Do not run this
-# module against a mutated tree until CWD arguments are capped cumulatively / the server is unprivileged.
+FLOORS = {"sessions": 60, "opens_inside_root": 100, "listings_inside_root": 250, "mutations_inside_root": 250,
+          "ev_os.mkdir": 100, "ev_os.remove": 30, "ev_os.rename": 50, "ev_os.rmdir": 30,
+          "escape_attempt_commands": 700, "escape_attempts_refused_5xx": 500, "transfers_completed": 100}
+READY = True
 
 REACTORS = ["select", "poll", "epoll", "asyncio"]
 PAD = 12  # directory levels between the scratch top and `base`
@@ -82,6 +91,12 @@ RW_VERBS = ["STOR", "APPE", "DELE", "RMD", "MKD", "RNFR"]
 TRANSFER = ("LIST", "NLST", "RETR", "STOR", "APPE")
 PAYLOAD = b"c54 upload payload\r\n" * 3
 HARNESS_FILES = ("server.err", "server.json")  # written by the harness directly under top
+UNPRIV = 65534  # the server drops to this uid/gid when the harness runs as root (containment)
+EXIT_CANNOT_DROP = 77
+INTERPRETER_READS = (".py", ".pyc", ".pyi", ".so", ".pth")  # only reads of such files outside the scratch area are
+# attributed to the interpreter (imports, linecache for tracebacks); any other outside path is an escape
+GUARD_ONLY_EVENTS = ("os.system", "os.exec", "os.posix_spawn", "os.spawn", "os.fork", "os.forkpty", "subprocess.Popen",
+                     "os.startfile", "os.chroot")  # refused outright by the server's guard
 MUTATING_EVENTS = ("os.mkdir", "os.rmdir", "os.remove", "os.rename", "os.truncate", "os.chmod", "os.link", "os.symlink")
 
 
@@ -89,6 +104,8 @@ MUTATING_EVENTS = ("os.mkdir", "os.rmdir", "os.remove", "os.rename", "os.truncat
 class Layout:
     def __init__(self):
         self.top = os.path.realpath(tempfile.mkdtemp(prefix="c54_"))
+        self.chown = os.geteuid() == 0  # the server will run as UNPRIV: hand the scratch tree over
+        os.chmod(self.top, 0o755)
         self.base = self.real(BASE_T)
         self.root = self.real(ROOT_T["rw"])
         os.makedirs(os.path.join(self.top, "cwd"))
@@ -96,6 +113,16 @@ class Layout:
         for f in TOP_FILES:
             self._write(os.path.join(self.top, f))
         self.build_base()
+        self.own(self.top)
+
+    def own(self, path):
+        """Give path (recursively) to the unprivileged uid the server runs as."""
+        if not self.chown:
+            return
+        os.chown(path, UNPRIV, UNPRIV)
+        for dirpath, dirnames, filenames in os.walk(path):
+            for n in dirnames + filenames:
+                os.lchown(os.path.join(dirpath, n), UNPRIV, UNPRIV)
 
     def real(self, s):
         return s.replace("@TOPREL@", self.top.lstrip("/")).replace("@TOP@", self.top)
@@ -116,6 +143,7 @@ class Layout:
         for f in BASE_FILES:
             self._write(os.path.join(self.base, f))
         self.build_root()
+        self.own(os.path.join(self.top, "p"))
 
     def build_root(self):
         shutil.rmtree(self.root, ignore_errors=True)
@@ -124,6 +152,7 @@ class Layout:
             os.mkdir(os.path.join(self.root, d))
         for f in ROOT_FILES:
             self._write(os.path.join(self.root, f))
+        self.own(self.root)
 
     def snapshot_outside(self, session_root):
         """State of everything under top that is not inside session_root."""
@@ -247,7 +276,7 @@ def hostile_path(rng, kind, cwd, destructive, max_ups=MAX_UPS_DESTRUCTIVE):
                         "..", "../", "/..", "/../", "../..", "/../..", ".", "/", "//", "/./", "./..", "/.//../"])
     elif r < 0.93:  # long names / deep paths
         k = rng.choice([255, 256, 300, 1000, 5000])
-        p = rng.choice(["A" * k, ("d/" * 200) + "x", "../" * MAX_UPS_DESTRUCTIVE + "A" * k, "pub/" + "B" * k,
+        p = rng.choice(["A" * k, ("d/" * (40 if destructive else 200)) + "x", "../" * MAX_UPS_DESTRUCTIVE + "A" * k, "pub/" + "B" * k,
                         "\xe9" * 128, ("../" if not destructive else "./") * 300 + "etc/passwd", "/" + "/" * 300 + ".."])
     elif r < 0.97 and not destructive:
         p = rng.choice(SYSTEM_TARGETS + ["../" * 40 + "etc/passwd", "/../../../../../../../../etc/passwd", "//etc/passwd", "/./etc/../etc/passwd"])
@@ -327,7 +356,7 @@ def gen_session(rng, index, nshards):
             if s:
                 dirs.add("/".join(s))
     cmds.append("QUIT")
-    return {"case": index, "user": kind, "reactor": REACTORS[(index // max(1, nshards)) % len(REACTORS)], "commands": cmds}
+    return {"case": index, "user": kind, "reactor": REACTORS[index % len(REACTORS)], "commands": cmds}
 
 
 # ---- raw-socket client ----------------------------------------------------------------------------
@@ -452,18 +481,22 @@ class Server:
         self.out = os.path.join(layout.top, "server.json")
         self.err = os.path.join(layout.top, "server.err")
         self.token = "t%d" % os.getpid()
-        cfg = {"reactor": reactor, "rw_root": layout.root, "anon_root": layout.real(ROOT_T["anon"]), "out": self.out,
+        cfg = {"reactor": reactor, "top": layout.top, "selftest_unconfined": bool(os.environ.get("C54_SELFTEST_UNCONFINED")),
+               "rw_root": layout.root, "anon_root": layout.real(ROOT_T["anon"]), "out": self.out,
                "cwd": os.path.join(layout.top, "cwd"), "user": USER, "password": PASSWORD, "token": self.token, "lifetime": 1500}
         script = os.path.join(os.path.dirname(os.path.abspath(__file__)), "c54_server.py")
         self.errf = open(self.err, "wb")
-        self.proc = subprocess.Popen([sys.executable, "-X", "dev", "-X", "faulthandler", "-W", "ignore", script, json.dumps(cfg)],
+        self.proc = subprocess.Popen([sys.executable, "-B", "-X", "faulthandler", "-W", "ignore", script, json.dumps(cfg)],
                                      stdout=subprocess.PIPE, stderr=self.errf, stdin=subprocess.DEVNULL)
-        self.port = None
+        self.port = self.euid = None
         r, _, _ = select.select([self.proc.stdout], [], [], 60)
         if r:
             line = self.proc.stdout.readline().decode("ascii", "replace")
             if line.startswith("PORT "):
-                self.port = int(line.split()[1])
+                self.port, self.euid = int(line.split()[1]), int(line.split()[2])
+        if self.port is not None and os.geteuid() == 0 and self.euid == 0:
+            self.port = None  # never talk to a server that still runs as root
+            self.kill()
 
     def err_tail(self):
         try:
@@ -514,7 +547,7 @@ def run_session(ctx, layout, port, sess):
     before = layout.snapshot_outside(R)
     rec = {"replies": [], "attempts": [], "closed_early": False}
     cl = Client(port)
-    cwd, authed, pending_user = [], False, None
+    cwd, authed = [], False
     try:
         code, _ = cl.reply()
         rec["replies"].append(["<greeting>", [code]])
@@ -528,9 +561,7 @@ def run_session(ctx, layout, port, sess):
             ctx.count("cmd_" + verb)
             ctx.count("reply_%dxx" % (codes[-1] // 100))
             # mirror of the login state / cwd: used for counters (escape attempts) only
-            if verb == "USER":
-                pending_user = arg
-            elif verb == "PASS" and codes[-1] == 230:
+            if verb == "PASS" and codes[-1] == 230:
                 authed, cwd = True, []
             elif verb in ("CWD", "CDUP") and codes[-1] == 250:
                 s = vsegs(cwd, arg if verb == "CWD" else "..")
@@ -606,14 +637,23 @@ def judge(ctx, layout, sessions, records, log):
                 cur_line = ent[1]
                 cur_idx += 1  # records[case]["replies"][cur_idx] is this command (index 0 = greeting)
             continue
+        if ent[0] == "I":  # module imported while serving (after the uid drop): evidence for preload()
+            ctx.count("lazy_imports_while_serving")
+            ctx.seen("lazy_imports", ent[1])
+            continue
         if cur is None:
             ctx.count("events_before_first_session")
+            if ent[0] == "E" and ent[4]:
+                ctx.violation("guard-blocked-operation-outside-any-session", "the containment guard refused %s before any session" % ent[1],
+                              {"event": ent[1], "paths": [layout.templ(x) for x in ent[2]]})
             continue
         R = layout.real(ROOT_T[cur["user"]])
         pc = per_case[cur["case"]]
         if ent[0] == "F":
             ctx.count("server_logged_failures")
             ctx.seen("logged_failure_types", ent[1])
+            if ent[1].endswith(("ImportError", "ModuleNotFoundError")):
+                ctx.inconclusive("the server failed to import a module after dropping to uid %d (extend preload()): %s" % (UNPRIV, ent[2]))
             if ent[1].endswith(".InsecurePath"):
                 ctx.violation("insecure-path-reached-filepath-layer",
                               "toSegments passed an escaping path to the shell; only FilePath.child's InsecurePath stopped it "
@@ -622,8 +662,15 @@ def judge(ctx, layout, sessions, records, log):
                                "offending_command": layout.templ(cur_line), "command_number": cur_idx,
                                "failure": [layout.templ(x) for x in ent[1:4]], "root": ROOT_T[cur["user"]]})
             continue
-        _, event, paths, raw = ent
+        _, event, paths, raw, blocked = ent
         ctx.count("fs_events")
+        if blocked:
+            ctx.count("operations_refused_by_containment_guard")
+        if event in GUARD_ONLY_EVENTS:
+            ctx.violation("guard-refused-" + event.replace("os.", ""), "the server tried %s (refused by the containment guard)" % event,
+                          {"case": cur["case"], "reactor": cur["reactor"], "user": cur["user"], "commands": cur["commands"],
+                           "offending_command": layout.templ(cur_line), "event": event, "arguments": raw})
+            continue
         if event == "hook-error":
             ctx.inconclusive("audit hook raised: %s" % raw)
             continue
@@ -642,16 +689,18 @@ def judge(ctx, layout, sessions, records, log):
                     ctx.count("mutations_inside_root")
                 if len(pc["events"]) < 12:
                     pc["events"].append([layout.templ(cur_line or "")[:80], event, layout.templ(p)[-60:]])
-            elif p == layout.top or p.startswith(layout.top + os.sep) or p in system or p.startswith("/etc/"):
+            elif (blocked or p == layout.top or p.startswith(layout.top + os.sep) or p in system or p.startswith("/etc/")
+                  or not p.endswith(INTERPRETER_READS)):
                 arg = (cur_line or "").partition(" ")[2]
                 how = classify_arg(arg, p, R)
-                where = "scratch" if p.startswith(layout.top) else "system-path"
+                where = "scratch" if (p + os.sep).startswith(layout.top + os.sep) else "system-path"
                 ctx.violation("outside-root-%s-via-%s" % (event.replace("os.", ""), how) + ("" if where == "scratch" else "-system-path"),
                               "FTP server performed %s on a path outside the shell root while processing %s" % (event, verb),
                               {"case": cur["case"], "reactor": cur["reactor"], "user": cur["user"], "commands": cur["commands"],
                                "offending_command": layout.templ(cur_line), "event": event, "path": layout.templ(p),
                                "raw_argument": [layout.templ(x) for x in raw], "root": ROOT_T[cur["user"]],
                                "expected": "every audited path is the root or inside root + '/'",
+                               "operation_refused_by_containment_guard": bool(blocked),
                                "command_number": cur_idx,
                                "replies_around": records.get(cur["case"], {}).get("replies", [])[max(0, cur_idx - 4):cur_idx + 2]})
             else:
@@ -688,7 +737,9 @@ def run_batch(ctx, reactor, sessions):
     try:
         srv = Server(layout, reactor)
         if srv.port is None:
-            ctx.inconclusive("%s server did not start: %s" % (reactor, srv.err_tail()))
+            why = "could not drop privileges (exit %d)" % EXIT_CANNOT_DROP if srv.proc.poll() == EXIT_CANNOT_DROP else \
+                "still euid 0" if srv.euid == 0 else "did not start (exit %s)" % srv.proc.poll()
+            ctx.inconclusive("%s server %s: %s" % (reactor, why, srv.err_tail()))
             srv.kill()
             return
         ctx.seen("reactors", reactor)
@@ -704,6 +755,9 @@ def run_batch(ctx, reactor, sessions):
             ctx.inconclusive("watchdog: %s server did not deliver its event log: %s" % (reactor, srv.err_tail()))
             return
         ctx.seen("reactor_classes", log["reactor"])
+        ctx.seen("server_uid_euid_egid_groups", "%s/%s/%s/%s" % (log["uid"], log["euid"], log["egid"], log["groups"]))
+        if os.geteuid() == 0 and 0 in (log["uid"], log["euid"], log["egid"]):
+            ctx.inconclusive("the server reported root ids after the drop: %r" % ([log["uid"], log["euid"], log["egid"]],))
         judge(ctx, layout, sessions, records, log["log"])
     finally:
         if srv is not None:
@@ -713,7 +767,7 @@ def run_batch(ctx, reactor, sessions):
 
 def run(ctx):
     groups = {}
-    for i in ctx.cases(300, 30000):
+    for i in ctx.cases(300, 20000):  # DESIGN asked 30 k; 30 k took 731 s at load 70 on the shared box, budget is 600 s
         s = gen_session(ctx.case_rng(i), i, ctx.nshards)
         groups.setdefault(s["reactor"], []).append(s)
     for reactor in REACTORS:
